@@ -5,3 +5,4 @@ pub mod time;
 pub mod uri;
 pub mod version;
 pub mod wire_req;
+pub mod gen;
